@@ -1,6 +1,7 @@
 import OrsoVerif.Model.Cursor
 import OrsoVerif.Lemmas.Cursor
 import OrsoVerif.Generated.CursorFns
+import OrsoVerif.Lemmas.CursorFootprint
 /-!
 # C04 — Cursor fetches deliver every row exactly once, in order
 
@@ -13,7 +14,13 @@ Part 2 (`gen_*`) proves what the contract needs of the definitions regenerated f
 Part 3 proves that the code machine (`Cursor.Impl.step`: iterators, the `fetchmany` loop,
 `list(cursor)`, built from the generated definitions) refines the spec machine for every
 history on a materialised frame and for every cursor-only history on a lazily backed frame
-(a list of chunks, some of them empty), and transfers the contract.
+(a list of chunks, some of them empty), and transfers the contract; the generators behind
+`select` / `filter` / `take`, translated from the source, are such chunk sources.
+Part 4 is about several frames: the frames `slice` / `head` / `tail` / `query` / `distinct` / `+` /
+`to_batches` hand out own their row lists (regenerated from the source), so every frame of a
+system runs its own history whatever is done to the others.
+Part 5 is the footprint of every member of `DataFrame` on `_cursor` and `_rows`, lifted from the
+source: only the cursor API reaches the cursor; the schema-level observers do not read rows.
 -/
 namespace C04
 open Cursor
@@ -359,6 +366,186 @@ theorem eager_exhaustion_permanent (d : Nat) (rows : List α) (dicts rel : Bool)
   rw [h3.1]
   rw [h2.1] at hnone
   exact (none_is_final _ hnone post).2
+
+/-! ### the lazy views as chunk sources -/
+
+/-- **The lazy views are chunk sources.**  The generators behind `filter`, `take` and `select`, translated
+from the source as the lists they produce (`Gen.CursorFns.filterRows/takeRows/selectRows`), produce the
+concatenation of one chunk of one or zero rows per parent row — the shape `lazy_refines_spec` is about.
+(Round 2 had this by correspondence only.  Python's generator protocol is trusted.) -/
+theorem generated_views_are_chunk_sources {β : Type} (rows : List α) (mask : List Bool) (indexes : List Nat)
+    (get : α → Nat → β) (cols : List Nat) :
+    Gen.CursorFns.filterRows rows mask = (filterChunks rows mask).flatten ∧
+    Gen.CursorFns.takeRows rows indexes = (takeChunks rows indexes).flatten ∧
+    Gen.CursorFns.selectRows get rows cols = (selectChunks get rows cols).flatten := by
+  refine ⟨?_, ?_, ?_⟩
+  · unfold Gen.CursorFns.filterRows filterChunks
+    rw [filter_map_flatten]
+    congr 1
+    apply List.map_congr_left
+    rintro ⟨t, m⟩ _
+    cases m <;> simp
+  · unfold Gen.CursorFns.takeRows takeChunks
+    rw [filter_map_flatten, List.map_map]
+    congr 1
+    apply List.map_congr_left
+    rintro ⟨m, i⟩ _
+    by_cases h : i ∈ indexes <;> simp [h]
+  · unfold Gen.CursorFns.selectRows selectChunks
+    induction rows with
+    | nil => rfl
+    | cons r rows ih => simp [ih]
+
+/-- …so a `filter` / `take` view read only through its cursor delivers a prefix of what the source's
+generator expression produces. -/
+theorem views_deliver_prefix (d : Nat) (rows : List α) (mask : List Bool) (indexes : List Nat) (ops : List (Op α))
+    (hops : ∀ op ∈ ops, LazyOk op = true) :
+    (∃ n, delivered (Impl.run (Impl.initLazy d (filterChunks rows mask) none false) ops).2
+        = (Gen.CursorFns.filterRows rows mask).take n) ∧
+    (∃ n, delivered (Impl.run (Impl.initLazy d (takeChunks rows indexes) none false) ops).2
+        = (Gen.CursorFns.takeRows rows indexes).take n) := by
+  have hv := generated_views_are_chunk_sources (β := α) rows mask indexes (fun a _ => a) []
+  constructor
+  · obtain ⟨n, _, h⟩ := lazy_delivers_prefix d (filterChunks rows mask) none false ops hops
+    exact ⟨n, by rw [h, hv.1]; rfl⟩
+  · obtain ⟨n, _, h⟩ := lazy_delivers_prefix d (takeChunks rows indexes) none false ops hops
+    exact ⟨n, by rw [h, hv.2.1]; rfl⟩
+/-! ## Part 4 — a frame and the frames derived from it -/
+
+/-- Every method that hands out a new frame over rows of this one (`slice`, `head`, `tail`, `query`,
+`distinct`, `+`, `to_batches`) gives it a row list of its own: `rows=self._rows[a:b]`, a list display, a
+comprehension, a concatenation — never `self._rows` itself, never `self`. -/
+theorem gen_derived_frames_own_rows : AllOwn := by
+  intro h; cases h <;> decide
+
+/-- …and `select` / `filter` / `take` hand out a new frame over a generator of their own (never `self`,
+never the parent's list): what `SysOp.deriveLazy` models as a new frame is one. -/
+theorem gen_views_are_new_frames :
+    Gen.Cursor.selectIsNewFrame = true ∧ Gen.Cursor.filterIsNewFrame = true ∧ Gen.Cursor.takeIsNewFrame = true := by
+  decide
+
+/-- **Frames do not interfere** (clause 1: slicing, `+`, batching are read-only observations of the frame
+they are applied to, and the frames they hand out are frames of their own).  In a system in which no two
+frames hold one list — which is every system reachable with what the source says now
+(`gen_derived_frames_own_rows`; the first conjunct is the invariant) — whatever the history does to the
+other frames (fetches, appends, further derivations, on frames that exist or are made on the way),
+frame `i` goes through its own history `proj i ops` and returns exactly what it would return alone. -/
+theorem frames_independent (ops : List (SysOp α)) (s : Sys α) (hl : s.links = []) (i : Nat) (f : Frame α)
+    (hf : s.frames[i]? = some f) :
+    (Sys.run s ops).1.links = [] ∧
+    (Sys.run s ops).1.frames[i]? = some (Impl.run f (Sys.proj i ops)).1 ∧
+    Sys.trace i ops (Sys.run s ops).2 = (Impl.run f (Sys.proj i ops)).2 :=
+  Sys.run_frame gen_derived_frames_own_rows ops s hl i f hf
+
+/-- The contract for the frame the others were derived from: for every materialised frame and every
+history of a system started from it — operations on it interleaved with derivations from it and from its
+descendants and with fetches and *appends* on those — what its fetch calls return is what the spec
+machine returns for its own operations: a prefix of its rows, and it refuses only after an append to
+*it*.  No shared list ever arises. -/
+theorem parent_contract_among_derived_frames (d : Nat) (rows : List α) (dicts rel : Bool) (ops : List (SysOp α)) :
+    Sys.trace 0 ops (Sys.run (Sys.init d (Impl.initEager d rows dicts rel)) ops).2 = (run (init d rows) (Sys.proj 0 ops)).2 ∧
+    (∃ n, n ≤ rows.length ∧
+      delivered (Sys.trace 0 ops (Sys.run (Sys.init d (Impl.initEager d rows dicts rel)) ops).2) = rows.take n) ∧
+    (Sys.run (Sys.init d (Impl.initEager d rows dicts rel)) ops).1.links = [] := by
+  have h := frames_independent ops (Sys.init d (Impl.initEager d rows dicts rel)) rfl 0 _ rfl
+  rw [h.2.2]
+  exact ⟨eager_refines_spec d rows dicts rel _, eager_delivers_prefix d rows dicts rel _, h.1⟩
+
+/-- The contract for a derived frame: a frame handed out by `slice` / `head` / `tail` / `query` /
+`distinct` / `+` / `to_batches` at any point of any history, holding `rows`, obeys the contract over
+`rows` in every continuation — whatever is appended to or fetched from its parent or its siblings. -/
+theorem derived_frame_contract (s : Sys α) (hl : s.links = []) (i : Nat) (how : Deriv) (rows : List α)
+    (ops : List (SysOp α)) (hd : (Sys.step s (.derive i how rows)).2 = .unit) :
+    Sys.trace s.frames.length ops (Sys.run (Sys.step s (.derive i how rows)).1 ops).2
+      = (run (init s.default rows) (Sys.proj s.frames.length ops)).2 ∧
+    ∃ n, n ≤ rows.length ∧
+      delivered (Sys.trace s.frames.length ops (Sys.run (Sys.step s (.derive i how rows)).1 ops).2) = rows.take n := by
+  cases hi : s.frames[i]? with
+  | none => simp [Sys.step, hi] at hd
+  | some g =>
+    cases hb : g.backing with
+    | lazy src => simp [Sys.step, hi, hb] at hd
+    | eager prows p =>
+      have hs : (Sys.step s (.derive i how rows)).1 =
+          { s with frames := s.frames ++ [Impl.initEager s.default rows false g.schemaRel] } := by
+        simp [Sys.step, hi, hb, gen_derived_frames_own_rows how]
+      rw [hs]
+      have h := frames_independent ops { s with frames := s.frames ++ [Impl.initEager s.default rows false g.schemaRel] }
+        hl s.frames.length (Impl.initEager s.default rows false g.schemaRel) (by simp)
+      rw [h.2.2]
+      exact ⟨eager_refines_spec _ rows false _ _, eager_delivers_prefix _ rows false _ _⟩
+
+/-- The same for a lazy view (`select` / `filter` / `take` of a materialised frame) read only through its
+cursor, while the parent is fetched from and observed.  (The view reads the parent's list when it is
+read: what it holds after an append to the parent is not defined by the property, and the model treats
+the view as a source of its own — the harness does not read a view after its parent was appended to.) -/
+theorem derived_view_contract (s : Sys α) (hl : s.links = []) (i : Nat) (tables : List (List α))
+    (ops : List (SysOp α)) (hd : (Sys.step s (.deriveLazy i tables)).2 = .unit)
+    (hops : ∀ op ∈ Sys.proj s.frames.length ops, LazyOk op = true) :
+    Sys.trace s.frames.length ops (Sys.run (Sys.step s (.deriveLazy i tables)).1 ops).2
+      = (run (init s.default (chunkRows tables none)) (Sys.proj s.frames.length ops)).2 ∧
+    ∃ n, n ≤ (chunkRows tables none).length ∧
+      delivered (Sys.trace s.frames.length ops (Sys.run (Sys.step s (.deriveLazy i tables)).1 ops).2)
+        = (chunkRows tables none).take n := by
+  cases hi : s.frames[i]? with
+  | none => simp [Sys.step, hi] at hd
+  | some g =>
+    cases hb : g.backing with
+    | lazy src => simp [Sys.step, hi, hb] at hd
+    | eager prows p =>
+      have hs : (Sys.step s (.deriveLazy i tables)).1 =
+          { s with frames := s.frames ++ [Impl.initLazy s.default tables none false] } := by
+        simp [Sys.step, hi, hb]
+      rw [hs]
+      have h := frames_independent ops { s with frames := s.frames ++ [Impl.initLazy s.default tables none false] }
+        hl s.frames.length (Impl.initLazy s.default tables none false) (by simp)
+      rw [h.2.2]
+      exact ⟨lazy_refines_spec _ tables none false _ hops, lazy_delivers_prefix _ tables none false _ hops⟩
+
+/-- Why the derivations must own their rows: two frames over one list (`links`).  The slice of a 2-row
+frame is appended to; the frame it was taken from — never appended to, its cursor live — delivers the
+foreign row. -/
+example :
+    let p : Frame Nat := (Impl.step (Impl.initEager 100 [10, 20] false false) .fetchone).1
+    let s : Sys Nat := { frames := [p, Impl.initEager 100 [10, 20] false false], links := [(1, 0)], default := 100 }
+    (Sys.run s [.on 1 (.append 99), .on 0 .fetchall, .on 1 .fetchone]).2 = [.unit, .many [20, 99], .err] := by decide
+
+/-- …and with what the source says now the same history leaves the first frame alone. -/
+example :
+    (Sys.run (Sys.init 100 (Impl.initEager 100 [10, 20] false false))
+      [.on 0 .fetchone, .derive 0 .head [10, 20], .on 1 (.append 99), .on 0 .fetchall, .on 1 .fetchone, .on 0 .fetchone]).2
+      = [.one (some 10), .unit, .unit, .many [20], .err, .one none] := by decide
+
+/-! ## Part 5 — what the observers do with the frame
+
+The bodies of the observers are not in the model.  What every member of `DataFrame`, and every function
+of orso a frame is handed to, does with `_cursor` and `_rows` is lifted from the source on every run
+(`Gen.CursorFootprint.units`, harness/extractors/c04_footprint.py); the call graph over it is closed in
+`Lemmas/CursorFootprint.lean`. -/
+
+/-- **Only the cursor API reaches the cursor.**  Whatever member of `DataFrame` other than `__init__`,
+`append` and the three fetch methods is used on a frame — directly, through another member, or through
+`display.ascii_table/markdown/html_table`, `converters.to_arrow/to_pandas/to_polars`, `GroupBy`,
+`TableProfile.from_dataframe` — nothing that is reached mentions `_cursor`, changes the row list in
+place, hands the frame to code outside the table, or is a fetch or an append.  (Clause 1, the observers;
+the analysis is syntactic, see the extractor for what it trusts.) -/
+theorem observers_leave_cursor_alone :
+    ∀ u ∈ Gen.CursorFootprint.units, u.name ∉ Footprint.cursorApi → Footprint.leavesCursorAlone u.name = true := by
+  decide +kernel
+
+/-- **The schema-level observers do not look at the rows**: `column_names`, `columncount`, `description`,
+`schema` reach neither `_rows` nor `materialize()` nor an iteration — which is why a lazily backed frame
+may be shown to them between fetches (clause 4: "read only through the cursor"). -/
+theorem schema_observers_do_not_read_rows :
+    ∀ n ∈ Gen.CursorFootprint.schemaObservers, Footprint.schemaOnly n = true ∧ (Footprint.find n).isSome = true := by
+  decide +kernel
+
+/-- Non-vacuity of the footprint table: it has the members, the call graph is followed (`shape` reaches
+`materialize` through `rowcount`), and the predicates do reject (`append`, `rowcount`). -/
+example : Footprint.reach "shape" = ["shape", "columncount", "rowcount", "materialize"] ∧
+    Footprint.leavesCursorAlone "append" = false ∧ Footprint.leavesCursorAlone "fetchall" = false ∧
+    Footprint.schemaOnly "rowcount" = false ∧ Gen.CursorFootprint.units.length ≥ 40 ∧
+    Gen.CursorFootprint.extracted = true := by decide +kernel
 
 /-- Non-vacuity: a concrete history over a 3-row frame exercising every operation. -/
 example :
